@@ -587,6 +587,11 @@ inverse!(AntiByPat, input, asm, By, span, [f], {
 
 inverse!("Match a constant exactly", (MatchConst, input, asm), {
     let (input, mut val) = Val.invert_extract(input, asm)?;
+    #[cfg(feature = "verif_hooks")]
+    if crate::verif::c12::bypassed(crate::verif::c12::MATCH_CONST_SPAN) {
+        val.push(ImplPrim(MatchPattern, 0));
+        return Ok((input, val));
+    }
     val.push(ImplPrim(MatchPattern, asm.spans.len() - 1));
     Ok((input, val))
 });
